@@ -39,6 +39,12 @@ def spec(arch, row, first, regs, mem):
             return mem[a]
         if rule[0] in ("s", "u"):
             return same
+        if rule[0] == "vo":
+            v = cfa + rule[1]                      # DW_CFA_val_offset: the value IS cfa + offset
+            return v if 0 <= v <= M64 else None
+        if rule[0] == "reg":
+            # DW_CFA_register: the value of another register of THIS frame (only sp, fp and the return-address register exist)
+            return {R["sp"]: sp, R["fp"]: fp, R["ra"]: rav}.get(rule[1])
         return None
     f = slot(row["fp"], fp)
     ra = slot(row["ra"], rav) if row["ra"][0] != "u" else None
@@ -133,6 +139,12 @@ def generate(rng, tier):
                     for fpr in (("s",), ("o", -16), ("o", -off), ("o", 8 - off) if arch == "x86" else ("o", 16 - off)):
                         for rar in (("o", -8), ("s",), ("o", 8 - off)):
                             sysrows.append(dict(cfa=("r", reg, off), fp=fpr, ra=rar))
+            # the rarely used rule forms: val_offset and register, for the frame pointer and the return address
+            for reg in (R["sp"], R["fp"]):
+                for off in (2 * gran, 4 * gran):
+                    for other in (("vo", -8), ("vo", 0), ("vo", 16), ("reg", R["sp"]), ("reg", R["fp"]), ("reg", R["ra"]), ("reg", 3)):
+                        sysrows.append(dict(cfa=("r", reg, off), fp=other, ra=("o", -8)))
+                        sysrows.append(dict(cfa=("r", reg, off), fp=("s",), ra=other))
             # expressions that do not produce an address (every way framehop's evaluation gives up), in every position
             zoo = [[], [("bad",)], [("plus",)], [("drop",)], [("reg0",)], [("breg", R["sp"], 8), ("stackvalue",)], [("deref",)],
                    [("breg", R["sp"], 16), ("deref",)], [("breg", 40, 0)], [("lit", 3), ("lit", 4)], [("breg", R["sp"], 32)]]
